@@ -56,7 +56,8 @@ CaseCmpImpl(a, b) == LET la == Lower(a)
 FirstIn(lo, hi, P(_)) == CHOOSE k \in lo..(hi + 1) : (k = hi + 1 \/ P(k)) /\ \A q \in lo..(k - 1) : ~P(q)
 \* last index k in lo..hi satisfying P, or lo-1
 LastIn(lo, hi, P(_)) == CHOOSE k \in (lo - 1)..hi : (k = lo - 1 \/ P(k)) /\ \A q \in (k + 1)..hi : ~P(q)
-MatchAt(s, t, k) == SubSeq(s, k, k + Len(t) - 1) = t
+\* t occurs in s at position k (the first byte is compared first: most candidate positions fail there)
+MatchAt(s, t, k) == (Len(t) = 0 \/ s[k] = t[1]) /\ SubSeq(s, k, k + Len(t) - 1) = t
 \* find(char / set member) from startPos: npos if startPos is npos or beyond the end
 FindFirst(s, pos, P(_)) == IF pos = -1 \/ V(pos) >= Len(s) THEN -1
                            ELSE LET k == FirstIn(V(pos) + 1, Len(s), P) IN IF k > Len(s) THEN -1 ELSE k - 1
@@ -95,7 +96,8 @@ App(v, i, x) == IF Len(v[i]) + Len(x) > MaxSize THEN Raise(v) ELSE Ok([v EXCEPT 
 Set(v, i, x) == Ok([v EXCEPT ![i] = x], 0)
 
 Eff(v, o) == LET s == v[o.i]
-                 t == v[o.j] IN
+                 t == v[o.j]
+                 T == ToSet(t) IN
   CASE o.a = "assign" -> Set(v, o.i, t)
     [] o.a = "assignLit" -> Set(v, o.i, o.lit)
     [] o.a = "assignSub" -> Set(v, o.i, Sub(t, o.pos, o.n))                      \* v[i] = v[j].substr(pos, n)
@@ -111,7 +113,7 @@ Eff(v, o) == LET s == v[o.i]
     [] o.a = "consume" -> LET h == HeadN(s, o.n) IN                               \* v[j] = v[i].consume(n)
                           [val |-> [[v EXCEPT ![o.i] = Drop(s, Len(h))] EXCEPT ![o.j] = h], ok |-> TRUE, r |-> h]
     [] o.a = "chop" -> Set(v, o.i, Sub(s, o.pos, o.n))
-    [] o.a = "trim" -> Set(v, o.i, Trim(s, ToSet(t), o.f1, o.f2))
+    [] o.a = "trim" -> Set(v, o.i, Trim(s, T, o.f1, o.f2))
     [] o.a = "toLower" -> Set(v, o.i, Lower(s))
     [] o.a = "toUpper" -> Set(v, o.i, Upper(s))
     [] o.a = "setAt" -> IF o.pos < 0 \/ o.pos >= Len(s) THEN Raise(v) ELSE Set(v, o.i, [s EXCEPT ![o.pos + 1] = o.c])
@@ -127,10 +129,10 @@ Eff(v, o) == LET s == v[o.i]
     [] o.a = "rfindChar" -> Ok(v, FindLast(s, o.pos, LAMBDA q : s[q] = o.c))
     [] o.a = "findStr" -> Ok(v, FindStr(s, t, o.pos))
     [] o.a = "rfindStr" -> Ok(v, RFindStr(s, t, o.pos))
-    [] o.a = "findFirstOf" -> Ok(v, FindFirst(s, o.pos, LAMBDA q : s[q] \in ToSet(t)))
-    [] o.a = "findFirstNotOf" -> Ok(v, FindFirst(s, o.pos, LAMBDA q : s[q] \notin ToSet(t)))
-    [] o.a = "findLastOf" -> Ok(v, FindLast(s, o.pos, LAMBDA q : s[q] \in ToSet(t)))
-    [] o.a = "findLastNotOf" -> Ok(v, FindLast(s, o.pos, LAMBDA q : s[q] \notin ToSet(t)))
+    [] o.a = "findFirstOf" -> Ok(v, FindFirst(s, o.pos, LAMBDA q : s[q] \in T))
+    [] o.a = "findFirstNotOf" -> Ok(v, FindFirst(s, o.pos, LAMBDA q : s[q] \notin T))
+    [] o.a = "findLastOf" -> Ok(v, FindLast(s, o.pos, LAMBDA q : s[q] \in T))
+    [] o.a = "findLastNotOf" -> Ok(v, FindLast(s, o.pos, LAMBDA q : s[q] \notin T))
     [] o.a = "at" -> IF o.pos < 0 \/ o.pos >= Len(s) THEN Raise(v) ELSE Ok(v, s[o.pos + 1])
     [] o.a = "index" -> Ok(v, s[o.pos + 1])                                      \* operator[]: only used within bounds
     [] o.a = "copy" -> Ok(v, HeadN(s, o.n))
